@@ -119,3 +119,5 @@ import Hm.Statements
 #print axioms C15_gunzip_truncated
 #print axioms C15_zlibDecode_truncated
 #print axioms C15_inflateRaw_truncated
+#print axioms C15_gzip_signature
+#print axioms C15_zlib_header
